@@ -46,6 +46,9 @@ pub enum Stage {
     Diamond(Vec<Stage>, Vec<Stage>),
     /// Pass-through failing on its k-th call (C07 fault).
     Fail(u64),
+    /// Harness block moving one frame of k per call and answering with a wait
+    /// from the same call (bool: rate-decreasing variant, k in -> 1 out).
+    Framed(usize, bool),
     /// Access-code correlator (bits -> bits).
     Correlate(Vec<u8>, usize),
     /// Tee -> (data, trigger = data * k) -> BurstTagger -> StreamToPdu ->
@@ -111,6 +114,9 @@ fn gen_stage(src: &mut Src, ty: Ty, cap_bytes: usize, allow_diamond: bool) -> (S
     match ty {
         Ty::U8 | Ty::Bits => {
             let n = if ty == Ty::Bits { 7 } else { 5 };
+            if src.chance(1, 8) {
+                return (Stage::Framed(*src.pick(&[4usize, 7, 16, 64, 500]), src.chance(1, 3)), ty);
+            }
             match src.below(n + allow_diamond as usize) {
                 0 => (Stage::XorConst(if ty == Ty::Bits { src.below(2) as u8 } else { src.below(256) as u8 }), ty),
                 1 => (Stage::DelayS(src.below(cap(1) / 4)), ty),
@@ -143,6 +149,7 @@ fn gen_stage(src: &mut Src, ty: Ty, cap_bytes: usize, allow_diamond: bool) -> (S
                 }
             }
         }
+        Ty::F32 | Ty::C32 if src.chance(1, 9) => (Stage::Framed(*src.pick(&[4usize, 7, 16, 64, 500]), src.chance(1, 3)), ty),
         Ty::F32 => match src.below(9 + 5 * allow_diamond as usize) {
             0 => (Stage::AddConstF((src.below(41) as f32 - 20.0) * 0.25), ty),
             1 => (Stage::MulConstF((src.below(41) as f32 - 20.0) * 0.125), ty),
@@ -231,7 +238,17 @@ pub fn gen_recipe(src: &mut Src, cap_bytes: usize, max_stages: usize) -> Recipe 
     let mut ty = src_ty;
     let mut diamonds = 0;
     for _ in 0..ns {
-        let (s, t) = gen_stage(src, ty, cap_bytes, diamonds == 0);
+        let (mut s, t) = gen_stage(src, ty, cap_bytes, diamonds == 0);
+        // The frame-hoarding variant only directly after the source: behind a
+        // block that writes in large granules (FFT blocks, whole packets) a
+        // consumer that holds back a partial frame can deadlock any bounded
+        // buffer (free < granule while available < frame), which is a property
+        // of the graph, not of the runner.
+        if let Stage::Framed(k, true) = s {
+            if !stages.is_empty() {
+                s = Stage::Framed(k, false);
+            }
+        }
         if matches!(s, Stage::Diamond(..) | Stage::DiamondF2C(..) | Stage::BurstRoundTrip(..) | Stage::TapSink | Stage::MergeSource(..)) {
             diamonds += 1;
         }
@@ -507,6 +524,18 @@ fn build_stage_x(s: &Stage, input: St, blocks: &mut Vec<Box<dyn Block + Send>>, 
             fails.push(f);
             push!(b, o, C32)
         }
+        (Stage::Framed(k, f), St::U8(r)) => {
+            let (b, o) = Framed::new(r, *k, *f);
+            push!(b, o, U8)
+        }
+        (Stage::Framed(k, f), St::F32(r)) => {
+            let (b, o) = Framed::new(r, *k, *f);
+            push!(b, o, F32)
+        }
+        (Stage::Framed(k, f), St::C32(r)) => {
+            let (b, o) = Framed::new(r, *k, *f);
+            push!(b, o, C32)
+        }
         (Stage::Diamond(a, b2), St::U8(r)) => {
             let (t, o1, o2) = Tee::new(r);
             blocks.push(Box::new(t));
@@ -659,6 +688,7 @@ pub fn reference_execute(recipe: &Recipe, big_bytes: usize) -> Result<Vec<u8>, S
             return Err("reference execution did not reach quiescence".into());
         }
         let before = built.all_sink_len();
+        let moved_before = crate::rt::solo_moved();
         let mut again = false;
         for (i, b) in built.blocks.iter_mut().enumerate() {
             if eof[i] {
@@ -675,7 +705,9 @@ pub fn reference_execute(recipe: &Recipe, big_bytes: usize) -> Result<Vec<u8>, S
                 Err(e) => return Err(format!("reference execution: block {name} failed: {e}")),
             }
         }
-        if again || built.all_sink_len() != before {
+        // Quiescence = a pass in which nothing moved on any stream (a block may
+        // answer with a wait from a call in which it moved data).
+        if again || built.all_sink_len() != before || crate::rt::solo_moved() != moved_before {
             quiet = 0;
         } else {
             quiet += 1;
